@@ -2,12 +2,18 @@
 PROP = dict(
         libs=["explore", "canon"],
         level="model_checking", shards=1,
-        level_text="TODO",
-        level_note="TODO",
+        level_text="Explicit-state model checking of the real cubicSender (Reno and Cubic) with its real pacer and the real RTTStats under a harness clock, and of the SendMode gate of the real sentPacketHandler wired to the same real congestion controller: bounded-depth BFS over event histories (sent / acked / lost / RTT sample / MTU increase / idle / clock jumps / pacer deadlines) with canonical-state merging; every transition is executed on the real code and judged by a small reference model (in-flight ledger, window-of-packets horizon, per-interval pacer ledger). Right level because the property is an invariant over all event histories, and the interesting arithmetic edges (two-packet floor, 3-packet room, half-window, once-per-window cutback, burst cap, overflow guards) are reachable within a few events once the initial window is shrunk through the internal constructor.",
+        level_note="Trusted: the reference model in mc/c20 (ledger maintained from the events / from the frame callbacks, never from implementation fields), the reflective canonicaliser, the window-limited predicate and the burst definition (max(10 datagrams, 1.25*bw*2ms)) taken as the statement's meaning of 'window-limited' and 'one burst'. Histories are bounded by depth (see parts[].rule); the window is shrunk to 3/4/8 packets or placed one packet below the maximum, so the cap is only reached in slow start; hybrid-slow-start exit (needs 8 RTT samples in one round and a 16-packet window) is outside the quick depth. The window parts drop the pacer from the canonical state (the window arithmetic never reads it); the pacer parts keep the whole send history in the state.",
         technique="explicit-state BFS over the real implementation with reference-model oracle",
         deadline=dict(quick=90, thorough=440),
-        rule="TODO",
-        assumptions=[],
+        rule="explicit-state BFS (successor = fresh real object + replay of the shortest path + one event) over (1) the real cubicSender+pacer+RTTStats driven through the SendAlgorithm API with a harness clock, (2) the real sentPacketHandler (SentPacket / ReceivedAck / OnLossDetectionTimeout / QueueProbePacket / SetMaxDatagramSize / SendMode / TimeUntilSend) driven by an obedient sender",
+        assumptions=[
+            "RTT samples above 60 s are outside the domain: a packet is only acknowledged within 60 s of being sent (older packets can only be declared lost); the division by a zero bandwidth in pacer.TimeUntilSend (needs RTT > ~2400 s) is therefore not probed",
+            "the clock is monotonic; one clock jump of 2^62 ns per history at most (a second one would overflow the 64-bit clock itself)",
+            "'window-limited' is read as: bytes in flight >= cwnd, or at most 3 full-size packets of room, or (in slow start) more than half the window in flight; 'one burst' as max(10 datagrams, 1.25 * bandwidth * 2 ms); bandwidth estimate = cwnd / smoothed RTT as reported by BandwidthEstimate()",
+            "OnRetransmissionTimeout (not an event of the quantifier, never called by the production code) is included in two parts only and is modelled as a timeout-loss response that starts a new window of packets",
+            "the ackhandler target covers the 1-RTT packet number space after handshake confirmation, with the random packet-number skipping replaced by the sequential generator; path probes and 0-RTT are not exercised",
+        ],
         targets=[
             dict(name="cc", pkg="internal/congestion", test="TestVerifC20Cc", files=["mc/c20/cc/*.go"],
                  parts=["reno-window", "cubic-window", "reno-window3", "reno-window8", "cubic-window8", "reno-pacer", "cubic-pacer", "reno-cap", "cubic-cap"]),
